@@ -213,6 +213,14 @@ def part_a(tier, seed, failures, stats, focus=None):
             o = rnd.choice(list(BIN) + list(UN))
             d3.append((o, rnd.choice(sub)) if o in UN else (o, rnd.choice(sub), rnd.choice(sub + leaves)))
         pool = pool + d3
+    if not focus:
+        # directed depth-3 family: nested floor-division / multiplication / modulo chains (strided-op arithmetic), where
+        # rewriting rules about nested floors are easy to get wrong
+        N_, M_ = ("sym", "N"), ("sym", "M")
+        for a_, b_, c_ in itertools.product((1, 2, 3, 4), repeat=3):
+            A, B, C = ("int", a_), ("int", b_), ("int", c_)
+            pool += [("//", ("*", ("//", N_, A), B), C), ("//", ("//", N_, A), B) if c_ == 1 else ("//", ("+", ("//", N_, A), C), B),
+                     ("//", ("*", ("//", ("+", N_, M_), A), B), C), ("%", ("*", ("//", N_, A), B), C), ("//", ("-", ("*", N_, B), ("%", N_, A)), C)]
     for t in pool:
         if focus and focus not in show(t):
             continue
@@ -253,7 +261,7 @@ def part_a(tier, seed, failures, stats, focus=None):
                 break
         # simplification preserves every evaluation
         try:
-            if depth(t) <= 1 or rnd.random() < 0.25:
+            if depth(t) <= 1 or depth(t) >= 3 or rnd.random() < 0.25:
                 s = d.simplify()
                 check_dim(s, t, rnd.sample(binds, 4), failures, "simplify", stats)
         except Exception as e:  # noqa: BLE001
